@@ -518,9 +518,9 @@ func decompose(lit string) (neg bool, digits string, exp10 int64, expHuge int) {
 }
 
 var (
-	maxFinite  = new(big.Rat).SetFloat64(math.MaxFloat64)
-	infThresh  *big.Rat // values >= this round to +Inf
-	ratTen     = big.NewInt(10)
+	maxFinite = new(big.Rat).SetFloat64(math.MaxFloat64)
+	infThresh *big.Rat // values >= this round to +Inf
+	ratTen    = big.NewInt(10)
 )
 
 func init() {
